@@ -10,8 +10,8 @@ func init() {
 		Technique:   "schedule-generating property-based testing (rapid + testing/synctest), tagged-message routing invariant; race-detector variant",
 		DesignRef:   "DESIGN.md section 3, C10",
 		Runs: []run{
-			{Test: "TestC10_Seq", Quick: 700, Thorough: 8000},
-			{Test: "TestC10_Race", Quick: 300, Thorough: 4000, Race: true},
+			{Test: "TestC10_Seq", Quick: 700, Thorough: 16000},
+			{Test: "TestC10_Race", Quick: 300, Thorough: 8000, Race: true},
 		},
 	})
 }
